@@ -27,11 +27,11 @@ import (
 
 // RAct is one action of a reader's repeating pattern.
 type RAct struct {
-	A    string `json:"a"`              // get contains iter probe misc
-	T    int    `json:"t,omitempty"`    // probe: first Seek target
-	N    int    `json:"n,omitempty"`    // probe: number of Seeks on one iterator
-	S    int    `json:"s,omitempty"`    // probe: target stride
-	K    int    `json:"k,omitempty"`    // key index (get, contains)
+	A    string `json:"a"`           // get contains iter probe misc
+	T    int    `json:"t,omitempty"` // probe: first Seek target
+	N    int    `json:"n,omitempty"` // probe: number of Seeks on one iterator
+	S    int    `json:"s,omitempty"` // probe: target stride
+	K    int    `json:"k,omitempty"` // key index (get, contains)
 	Ad   bool   `json:"adapter,omitempty"`
 	Acts []Act  `json:"acts,omitempty"` // iter: positioning+scan actions on ONE iterator
 	Y    int    `json:"y,omitempty"`    // runtime.Gosched() calls before the action
@@ -46,8 +46,8 @@ type CCase struct {
 	W     []Op     `json:"w"`     // writer history: put / del / imm (table) or switch (pool)
 	Burst int      `json:"burst"` // the writer yields after every Burst steps (0 = never)
 	// Prefill: this many leading steps of W are applied before the readers start
-	Prefill int `json:"prefill"`
-	R     [][]RAct `json:"r"`     // one action pattern per reader
+	Prefill int      `json:"prefill"`
+	R       [][]RAct `json:"r"` // one action pattern per reader
 }
 
 func genCCase(t *rapid.T) CCase {
